@@ -225,10 +225,12 @@ Proof. exact thread_order_x. Qed.
 Print Assumptions c07_thread_order_under_failing_side_writes.
 
 (* … as built: at the gate the extractor reads from run_session on every run (the blocks around the append_run_ended call, the
-   use of write_snapshot's result; obligations gen_exit_gate_ok / gen_exit_gate_unconditional), the activities ARE the ones
-   every theorem above speaks about, whatever side writes fail *)
+   use of write_snapshot's result; obligations gen_exit_gate_ok / gen_exit_gate_unconditional), an activity under ANY failure
+   pattern is an activity every theorem above speaks about: the same run on the input the failing side writes leave it
+   (`act_under`: a context bundle that cannot be written = compile failure, an auto checkpoint that cannot be written =
+   checkpoint_failed; a failing snapshot / thread-cache write changes nothing) *)
 Theorem c07_side_writes_as_built : forall (swf : N -> side_write -> bool) (aok : ck -> bool) (a : act),
-  act_events_x gen_exit_gate swf aok a = act_events aok a.
+  act_events_x gen_exit_gate swf aok a = act_events aok (act_under swf a).
 Proof. exact (fun swf aok a => act_events_x_ungated gen_exit_gate swf aok a gen_exit_gate_unconditional). Qed.
 Print Assumptions c07_side_writes_as_built.
 
@@ -377,3 +379,11 @@ Example c07_failing_snapshot_demo :
   Interleave (map (act_events_x EXIT_GATE swf_snapshot_dir_damaged all_ok) gated_acts) ungated_log
   /\ conts ungated_log = [CMessage 7; CRunSpawned 1 7; CSideEffects 1; CRunEnded 1 7 R_COMPLETED; CMessage 8; CRunSpawned 2 8; CRunEnded 2 8 R_COMPLETED].
 Proof. exact ungated_facts. Qed.
+
+(* failing side writes BEFORE the exit: with the artifact and checkpoint directories damaged a linked provider run ends
+   context_compile_failed and a `write` envelope logs checkpoint_failed before the tool - both are closed, with those reasons *)
+Example c07_failing_workspace_writes_demo :
+  map snd (sess_stream 1 ws_damaged_log) = [SStarted; SEnded R_COMPILE_FAILED]
+  /\ map snd (sess_stream 2 ws_damaged_log) = [SStarted; SCkFailed; SToolStarted; SToolStdout; SToolEnded; SOutput; SEnded R_COMPLETED]
+  /\ conts ws_damaged_log = [CMessage 7; CRunSpawned 1 7; CRunEnded 1 7 R_COMPILE_FAILED; CMessage 8; CRunSpawned 2 8; CSideEffects 2; CRunEnded 2 8 R_COMPLETED].
+Proof. exact ws_damaged_facts. Qed.
